@@ -51,14 +51,15 @@ pub fn run(ctx: &Ctx) -> Report {
     let b = ctx.tier.pick(2usize, 3usize);
     let mut hs = vec![
         // limits that force rotations inside the run; windows large enough that nothing is evicted
-        (RSched { world: mk(Trig::Size(30), fw(6, ""), None), threads: 2, per_thread: 2, size: 24, chunks: 2 }, b),
-        (RSched { world: mk(Trig::Size(0), fw(6, ""), Some(10)), threads: 2, per_thread: 2, size: 24, chunks: 1 }, b),
-        (RSched { world: mk(Trig::Size(1100), fw(4, ".gz"), None), threads: 2, per_thread: 2, size: 1500, chunks: 2 }, 2),
-        (RSched { world: mk(Trig::OnStartup(1), fw(3, ""), Some(10)), threads: 3, per_thread: 1, size: 24, chunks: 2 }, 2),
+        (RSched { world: mk(Trig::Size(30), fw(6, ""), None), threads: 2, per_thread: 2, size: 24, chunks: 2, restart_after: None }, b),
+        (RSched { world: mk(Trig::Size(0), fw(6, ""), Some(10)), threads: 2, per_thread: 2, size: 24, chunks: 1, restart_after: None }, b),
+        (RSched { world: mk(Trig::Size(1100), fw(4, ".gz"), None), threads: 2, per_thread: 2, size: 1500, chunks: 2, restart_after: None }, 2),
+        (RSched { world: mk(Trig::OnStartup(1), fw(3, ""), Some(10)), threads: 3, per_thread: 1, size: 24, chunks: 2, restart_after: None }, 2),
+        (RSched { world: mk(Trig::Size(30), fw(6, ""), None), threads: 1, per_thread: 4, size: 24, chunks: 2, restart_after: Some(2) }, b),
     ];
     if ctx.tier == Tier::Thorough {
-        hs.push((RSched { world: mk(Trig::Size(30), fw(8, ""), None), threads: 3, per_thread: 2, size: 24, chunks: 2 }, 2));
-        hs.push((RSched { world: mk(Trig::Size(50), fw(8, ".zst"), None), threads: 2, per_thread: 3, size: 24, chunks: 2 }, 3));
+        hs.push((RSched { world: mk(Trig::Size(30), fw(8, ""), None), threads: 3, per_thread: 2, size: 24, chunks: 2, restart_after: None }, 2));
+        hs.push((RSched { world: mk(Trig::Size(50), fw(8, ".zst"), None), threads: 2, per_thread: 3, size: 24, chunks: 2, restart_after: None }, 3));
     }
     run_scheds(ctx, &mut rep, &hs);
     // the same histories, and schedules over the roller's own rotation threads, in the build with the `background_rotation` feature
@@ -109,9 +110,12 @@ pub fn child_bg(args: &[String]) -> i32 {
     let fw = |count: u32, ext: &'static str| RollerK::Fixed { base: 0, count, ext };
     let mk = |trig: Trig, roller: RollerK| World { append: true, trig, roller, pre: None, sizes: vec![], multibyte: false, restart: false };
     let hs = vec![
-        (RSched { world: mk(Trig::Size(0), fw(6, "")), threads: 1, per_thread: 3, size: 24, chunks: 1 }, 2usize),
-        (RSched { world: mk(Trig::Size(0), fw(6, "")), threads: 2, per_thread: 2, size: 24, chunks: 1 }, 1),
-        (RSched { world: mk(Trig::Size(30), fw(6, ".gz")), threads: 2, per_thread: 2, size: 24, chunks: 2 }, 1),
+        (RSched { world: mk(Trig::Size(0), fw(6, "")), threads: 1, per_thread: 3, size: 24, chunks: 1, restart_after: None }, 2usize),
+        (RSched { world: mk(Trig::Size(0), fw(6, "")), threads: 2, per_thread: 2, size: 24, chunks: 1, restart_after: None }, 1),
+        (RSched { world: mk(Trig::Size(30), fw(6, ".gz")), threads: 2, per_thread: 2, size: 24, chunks: 2, restart_after: None }, 1),
+        // an in-process restart (appender dropped, a new one built on the same path) while a rotation may still be in the background
+        (RSched { world: mk(Trig::Size(0), fw(6, "")), threads: 1, per_thread: 4, size: 24, chunks: 1, restart_after: Some(2) }, 2),
+        (RSched { world: mk(Trig::Size(0), fw(6, ".gz")), threads: 1, per_thread: 3, size: 24, chunks: 1, restart_after: Some(1) }, 2),
     ];
     run_scheds(&ctx, &mut rep, &hs);
     for v in rep.violations() {
